@@ -3,3 +3,5 @@ import IdenaModel.Props.C13
 import IdenaModel.Props.C06
 import IdenaModel.Props.C02
 import IdenaModel.Props.C03
+import IdenaModel.Props.C13State
+import IdenaModel.Props.C17
